@@ -134,7 +134,7 @@ class CheckRun:
         if os.environ.get("VERIF_SKIP_MAKE"):   # builders' convenience only; registered commands never set it
             self.notes.append("VERIF_SKIP_MAKE set: `make` skipped (development run, not evidence)")
             return True
-        p = subprocess.run(["timeout", "1800", "make", "-C", COQ, "-j16", "all"], capture_output=True, text=True)
+        p = subprocess.run(["timeout", "1800", "make", "-C", COQ, "-j16", f"prop-{self.prop}"], capture_output=True, text=True)
         ok = p.returncode == 0
         self.obligation("make coq (hand-written models, lemmas, property theorems)", ok, (p.stdout + p.stderr)[-3000:])
         return ok
